@@ -33,13 +33,15 @@ Inductive opreq :=
 | QDestroy (u : option Z)
 | QAttrList (u : option Z)        (* GetAttributeList: depends on the attribute policy    *)
 | QDiscover                       (* DiscoverVersions: needs KMIP 1.1                     *)
+| QRevoke (u : option Z)          (* Revoke, reason other than key compromise: Active -> Deactivated         *)
+| QEncrypt (u : option Z)         (* Encrypt (stands for Decrypt/Sign/SignatureVerify/MAC): the key must be Active NOW *)
 | QGetState (u : option Z)        (* GetAttributes [Name; State]: the answer is the state the store holds NOW *)
 | QQuery (with_ops : bool).       (* Query; with_ops: the function list contains QueryOperations - the operation list
                                      answered depends on the protocol version (1.0: 12, 1.1: 13, 1.2 and later: 18) *)
 
 Record req := mkReq { r_ver : Z; r_ops : list opreq }.
 
-(* result codes: 0 success, 1 ITEM_NOT_FOUND, 2 PERMISSION_DENIED, 3 OPERATION_NOT_SUPPORTED *)
+(* result codes: 0 success, 1 ITEM_NOT_FOUND, 2 PERMISSION_DENIED, 3 OPERATION_NOT_SUPPORTED, 4 ILLEGAL_OPERATION *)
 Record item := mkItem {
   i_op : Z;                 (* operation code (KMIP Operation enumeration value)                     *)
   i_code : Z;
@@ -68,7 +70,8 @@ Inductive mop :=
 | MCheck                    (* _is_allowed_by_operation_policy: reads _client_identity (default policy: owner only)    *)
 | MCreate                   (* owner := _client_identity[0]; add; commit                                               *)
 | MSetPh                    (* _id_placeholder := new identifier                                                       *)
-| MActivate | MDestroy
+| MActivate | MDestroy | MRevoke
+| MUse                      (* a cryptographic use: refused unless the object loaded for this request is Active       *)
 | MAttrs                    (* reads _attribute_policy                                                                 *)
 | MState                    (* the State attribute of the object just loaded                                           *)
 | MQuery (with_ops : bool)  (* _process_query: reads _protocol_version twice (>= 1.1, >= 1.2)                          *)
@@ -159,6 +162,23 @@ Definition interp (m : mop) (p : shared * local) : shared * local :=
         | None => (sh, fail l 1)
         end
       else (sh, l)
+  | MRevoke =>
+      if active l then
+        match l_obj l with
+        | Some o =>
+            if o_state o =? 2 then
+              (set_store sh (map (fun x => if o_uid x =? o_uid o then mkObj (o_uid x) (o_owner x) 3 else x) (s_store sh)) (s_next sh), l)
+            else (sh, fail l 4)
+        | None => (sh, fail l 1)
+        end
+      else (sh, l)
+  | MUse =>
+      if active l then
+        match l_obj l with
+        | Some o => if o_state o =? 2 then (sh, l) else (sh, fail l 2)
+        | None => (sh, fail l 1)
+        end
+      else (sh, l)
   | MDestroy =>
       if active l then
         match l_obj l with
@@ -195,7 +215,7 @@ Definition interp (m : mop) (p : shared * local) : shared * local :=
 
 (* KMIP Operation enumeration values *)
 Definition OP_create := 1.  Definition OP_get := 10.  Definition OP_attrlist := 12.
-Definition OP_activate := 18.  Definition OP_destroy := 20.  Definition OP_discover := 30.  Definition OP_query := 24.  Definition OP_getattrs := 11.
+Definition OP_activate := 18.  Definition OP_destroy := 20.  Definition OP_discover := 30.  Definition OP_query := 24.  Definition OP_getattrs := 11.  Definition OP_revoke := 19.  Definition OP_encrypt := 31.
 
 Definition prog_of_op (o : opreq) : list mop :=
   match o with
@@ -205,6 +225,8 @@ Definition prog_of_op (o : opreq) : list mop :=
   | QDestroy u => [MGate 10; MResolve u; MLoad; MCheck; MDestroy; MEmit OP_destroy]
   | QAttrList u => [MResolve u; MLoad; MCheck; MAttrs; MEmit OP_attrlist]
   | QDiscover => [MGate 11; MEmit OP_discover]
+  | QRevoke u => [MGate 10; MResolve u; MLoad; MCheck; MRevoke; MEmit OP_revoke]
+  | QEncrypt u => [MGate 12; MResolve u; MLoad; MCheck; MUse; MEmit OP_encrypt]
   | QGetState u => [MResolve u; MLoad; MCheck; MState; MEmit OP_getattrs]
   | QQuery w => [MQuery w; MEmit OP_query]
   end.
